@@ -317,3 +317,19 @@ Proof.
   pose proof (vs_rank_lt l x (vs_rank l x - 1) (sorted_lt_le _ Hs) ltac:(lia)).
   pose proof (sorted_lt_ge_index l (vs_rank l x - 1) Hs ltac:(lia)). lia.
 Qed.
+
+(* consecutive values of a strictly increasing list are at least their index distance apart *)
+Lemma sorted_lt_gap l i j : sorted_lt l -> i <= j -> j < lenN l -> nthd l i + (j - i) <= nthd l j.
+Proof.
+  intros Hs Hij. remember (N.to_nat (j - i)) as d eqn:Hd. revert j Hij Hd.
+  induction d as [|d IH]; intros j Hij Hd Hj.
+  - replace j with i by lia. lia.
+  - specialize (IH (j - 1) ltac:(lia) ltac:(lia) ltac:(lia)).
+    specialize (Hs (j - 1) j ltac:(lia) Hj). lia.
+Qed.
+
+Lemma sorted_lt_len_le l n : sorted_lt l -> bounded n l -> lenN l <= n.
+Proof.
+  intros Hs Hb. destruct (N.eq_dec (lenN l) 0) as [->|Hne]; [lia|].
+  pose proof (sorted_lt_ge_index l (lenN l - 1) Hs ltac:(lia)). pose proof (Hb (lenN l - 1) ltac:(lia)). lia.
+Qed.
